@@ -135,7 +135,7 @@ def run(ctx):
                       "--vectors", os.path.join(REPO, "src/vm/testdata"), "--vecperfile", str(perfile),
                       "--shard", str(k), "--shards", str(shards), "--matrix", "quick" if quick else "full", "--exp", str((1 if k < 2 else 0) if quick else 4)])
     outs = ctx.run_parallel(argvs, timeout=900)
-    tot = {"programs": 0, "steps": 0, "events": 0, "vectors": 0, "tlc_programs": 0, "matrix_programs": 0}
+    tot = {"programs": 0, "steps": 0, "events": 0, "vectors": 0, "tlc_programs": 0, "matrix_programs": 0, "truncated_runs": 0}
     ops, faults = {}, {}
     for o in outs:
         for line in o.splitlines():
@@ -200,7 +200,7 @@ def run(ctx):
     }
     finish(ctx, "model_checking", coverage, [
         "jump table of the dev configuration at height 100 (proposals 014/022 active, 026 inactive: BootServices raises Proposal026Block); process-global common.LocalChainConfig is a fixed configuration",
-        "gas is ample (10^7) in C10 runs: an out-of-gas fault is accepted only for a memory requirement above 64 KiB; gas itself is C11's subject",
+        "gas is ample (400 000) in C10 runs: an out-of-gas fault is accepted only for a memory requirement above 64 KiB; gas itself is C11's subject",
         "KECCAK256 is computed by the harness (x/crypto) over the memory slice, which the monitor compares with the slice the reference selects",
         "CALL to the identity precompile is used to fill the return data buffer; the CALL step itself is outside the computational set and not judged",
         "stack overflow at 1024 items is exercised by C11 (no value images)",
